@@ -27,3 +27,60 @@ Theorem C11_pinned_refuted :
     select img = Some newh /\ mem_after false false img newh = MemOld.
 Proof. exact fault_mem_pinned_refuted. Qed.
 Print Assumptions C11_pinned_refuted.
+
+(* ---- histories at the ENGINE level, with contents: the process does not crash. Some call of a commit's I/O sequence fails
+   (the failing call applied, lost or torn), commit reports an error, and the SAME process goes on: from the new engine state
+   when the image shows the new header (the library publishes the transaction's free list exactly then: the generated flag),
+   from the old one -- in-memory free list untouched, no reopen -- otherwise; successful commits in between. After ANY such
+   history the disk selects the final state's header with every page it needs settled, the complete engine invariant holds,
+   and the database reads as the reference after EXACTLY the commits that are visible, in order: a commit that reported an
+   error is either entirely there or entirely absent. ---- *)
+From Jamm Require Engine EngineAbs EngineReopen EngineCow EngineCrashHistories EngineFaultHistories.
+Theorem C11_engine_fault_histories : forall st0 cd0 l surv stf cdf,
+  EngineFaultHistories.fault_run st0 cd0 l surv stf cdf -> EngineCrashHistories.Sim st0 cd0 -> EngineReopen.db_inv st0 ->
+  EngineCrashHistories.Sim stf cdf /\ EngineReopen.db_inv stf /\
+  EngineAbs.abs_db stf = EngineCrashHistories.sem_survivors surv (EngineAbs.abs_db st0).
+Proof. exact EngineFaultHistories.engine_fault_history. Qed.
+Print Assumptions C11_engine_fault_histories.
+
+Theorem C11_engine_fault_histories_exist : forall l st cd, EngineCrashHistories.Sim st cd -> EngineReopen.db_inv st ->
+  EngineFaultHistories.steps_okE st l -> exists surv stf cdf, EngineFaultHistories.fault_run st cd l surv stf cdf.
+Proof. exact EngineFaultHistories.fault_run_total. Qed.
+Print Assumptions C11_engine_fault_histories_exist.
+
+(* which continuation the process takes is the one its memory is in: the generated publication rule *)
+Theorem C11_memory_follows_image : forall st cd st' w k f, EngineCrashHistories.Sim st cd ->
+  EngineCrashHistories.is_write_set st st' w ->
+  let img := EngineFaultHistories.fault_img st st' w cd k f in
+  let m := mem_after publish_on_visible_header false img (EngineCow.eng_header st') in
+  (select img = Some (EngineCow.eng_header st') -> m = MemNew) /\
+  (select img = Some (EngineCow.eng_header st) -> m = MemOld).
+Proof. exact EngineFaultHistories.fault_memory_follows_image. Qed.
+Print Assumptions C11_memory_follows_image.
+
+(* a failure before the header write is invisible; a failure of the final sync leaves the commit visible *)
+Theorem C11_fault_before_header_is_lost : forall st st' w cd k f,
+  (k <= List.length (EngineCow.tx_written st st' w))%nat ->
+  select (EngineFaultHistories.fault_img st st' w cd k f) = select cd.
+Proof. exact EngineFaultHistories.fault_before_header_is_lost. Qed.
+Theorem C11_fault_after_header_is_visible : forall st st' w cd k f,
+  (List.length (EngineCow.tx_written st st' w) + 2 <= k)%nat ->
+  EngineFaultHistories.fault_img st st' w cd k f = EngineFaultHistories.done_img st st' w cd.
+Proof. exact EngineFaultHistories.fault_after_header_is_visible. Qed.
+Print Assumptions C11_fault_after_header_is_visible.
+Check EngineFaultHistories.ExFault.fail_then_retry. Check EngineFaultHistories.ExFault.two_faults.
+
+(* ---- the whole alphabet in one history (EngineMixedHistories): completed commits, commits that report an I/O error (the
+   process goes on), power losses during a commit followed by a reopen, clean reopens, and write transactions that are
+   dropped without commit, in ANY order and number: the disk selects the final state's header with settled pages, the
+   complete engine invariant holds, and the database reads as the reference after exactly the commits that survived, in
+   order (an in-order sub-list of the commit-like events: `mixed_run_survivors`); a run exists whenever the model accepts
+   the transactions on every continuation (`mixed_run_total`). ---- *)
+From Jamm Require EngineAbs EngineReopen EngineCrashHistories EngineMixedHistories.
+Theorem C11_engine_mixed_histories : forall st0 cd0 l surv stf cdf,
+  EngineMixedHistories.mixed_run st0 cd0 l surv stf cdf -> EngineCrashHistories.Sim st0 cd0 -> EngineReopen.db_inv st0 ->
+  EngineCrashHistories.Sim stf cdf /\ EngineReopen.db_inv stf /\
+  EngineAbs.abs_db stf = EngineCrashHistories.sem_survivors surv (EngineAbs.abs_db st0).
+Proof. exact EngineMixedHistories.engine_mixed_history. Qed.
+Print Assumptions C11_engine_mixed_histories.
+Check EngineMixedHistories.mixed_run_survivors. Check EngineMixedHistories.mixed_run_total. Check EngineMixedHistories.ExMixed.every_kind.
